@@ -25,6 +25,15 @@ func SetApprove(cfg *program.Config, device, policy string, failed bool) {
 	if failed {
 		result = "FAILED"
 	}
+	if failed && v.Approve.Time > v.Compare.Time {
+		switch v.Approve.Result {
+		case "OK", "WARNINGS":
+			// Failed approve leaves device unchanged.
+			// Don't lose information about previous successful approve,
+			// which showed that device was up to date with that policy.
+			v.Compare = action{"UPTODATE", v.Approve.Policy, v.Approve.Time}
+		}
+	}
 	v.Approve = action{result, policy, mytime.Now().Unix()}
 	write(cfg, device, v)
 }
